@@ -3,13 +3,20 @@ C11 — HOA decoding is invariant to channel order and normalisation convention.
 
 Property theorems about the model `Earverif/Model/Hoa.lean` (transliteration of `hoa.allrad_design`,
 `HOADecoderDesign.design`, the `HOARenderer` routing and the norm/ACN helpers) over ℝ.
-`G` (panner on the t-design), `Y` (N3D harmonics of the pack's channels), the norm vectors, the per-order maxRE
-table and the gains are arbitrary; hypotheses (non-zero norm factors, non-zero mean power) are explicit.
+Two layers:
+* abstract: `G` (panner on the t-design), `Y` (N3D harmonics of the pack's channels), the norm vectors, the per-order
+  maxRE table and the gains are arbitrary; the hypothesis `NonDegenerate` (Proofs/C11.lean) says that every
+  denominator of the computation is non-zero (over ℝ `x/0 = 0` would otherwise make the statements true where the
+  `Float` model returns NaN); `nonDegenerate_of_indep` derives it from conditions on `G`, `Y` and the norm factors;
+* concrete (`designPack`): `Y = sph_harm(…, norm_N3D)` from the model of `hoa.sph_harm` (closed-form Legendre
+  recurrence), norm vectors from the model of `norm_N3D/SN3D/FuMa` — channels with `|degree| ≤ order`.
 
-Not proved (searched on the real code instead): finiteness — over ℝ it is vacuous; and that the real
-`sph_harm`, panner and Legendre code produce the matrices they should.
+Not proved (searched on the real code instead): finiteness in binary64 (over ℝ every value is "finite"; the theorems
+state where no division by zero happens); the panner `G_virt`, the t-design and the maxRE table are parameters; scipy's
+`lpmv`/`factorial` are modelled in closed form and tied by the correspondence.
 -/
 import Earverif.Proofs.C11
+import Earverif.Proofs.C11Sph
 import Earverif.Gen.C11_Tables
 
 namespace Earverif.Hoa
@@ -21,36 +28,45 @@ variable {L C P : Nat}
 /-- **Permuting the pack's channels permutes the decoder's columns and changes nothing else.**
 `permV σ` lists the channels in another order (rows of `Y`, both norm vectors, the orders used for the maxRE
 table and the gains all move together); for every option set, gains and mute flag, column `c` of the new
-decoder is column `σ c` of the old one. No hypotheses. -/
+decoder is column `σ c` of the old one, and the permuted computation divides by zero nowhere either.
+(The equality itself also holds without `hnd` over ℝ — there only because `x/0 = 0`; on `Float` both sides are then
+NaN.) -/
 theorem design_perm (σ : Equiv.Perm (Fin C)) (o : Opts) (G : Mat ℝ L P) (Y : Mat ℝ C P)
     (nN3D nrm : Vector ℝ C) (ord : Vector Nat C) (coef : Nat → ℝ) (gains : Vector ℝ C) (og : ℝ) (mute : Bool)
-    (l : Fin L) (c : Fin C) :
-    (design o G (permV σ Y) (permV σ nN3D) (permV σ nrm) (permV σ ord) coef (permV σ gains) og mute).at l c
-      = (design o G Y nN3D nrm ord coef gains og mute).at l (σ c) := by
-  unfold design
-  have hw : (if o.maxRE = true then some (maxREWeights coef (permV σ ord) o.maxREScale L) else none)
-      = (if o.maxRE = true then some (maxREWeights coef ord o.maxREScale L) else none).map (permV σ) := by
-    split <;> simp [maxREWeights_perm]
-  rw [hw, designW_at, designW_at, d1_perm, meanPow_perm, permV_get]
+    (hnd : NonDegenerate o G Y nN3D nrm ord coef) :
+    NonDegenerate o G (permV σ Y) (permV σ nN3D) (permV σ nrm) (permV σ ord) coef ∧
+    ∀ (l : Fin L) (c : Fin C),
+      (design o G (permV σ Y) (permV σ nN3D) (permV σ nrm) (permV σ ord) coef (permV σ gains) og mute).at l c
+        = (design o G Y nN3D nrm ord coef gains og mute).at l (σ c) := by
+  refine ⟨hnd.perm σ, fun l c => ?_⟩
+  rw [design_eq, design_eq, wOpt_perm, designW_at, designW_at, d1_perm, meanPow_perm, permV_get]
 
 /-! ### Normalisation convention -/
 
-/-- **decoder₁ · diag(nrm₁) = decoder₂ · diag(nrm₂)** for any two conventions whose per-channel factors (and the
-N3D factors) are non-zero, everything else equal (options incl. maxRE, gains, mute). -/
+/-- the non-zero-denominator conditions carry over to any other convention with non-zero factors -/
+theorem NonDegenerate.change_norm {o : Opts} {G : Mat ℝ L P} {Y : Mat ℝ C P} {nN3D nrm₁ : Vector ℝ C}
+    {ord : Vector Nat C} {coef : Nat → ℝ} (h : NonDegenerate o G Y nN3D nrm₁ ord coef) (nrm₂ : Vector ℝ C)
+    (h₂ : ∀ c : Fin C, nrm₂[c.1] ≠ 0) : NonDegenerate o G Y nN3D nrm₂ ord coef :=
+  ⟨h.points, h.fro, h.hn3d, h₂, h.sumsq, fun ho => by
+    rw [← meanPow_norm_free G Y nN3D nrm₁ nrm₂ _ h.hn3d h.hnrm h₂]; exact h.meanPow ho⟩
+
+/-- **decoder₁ · diag(nrm₁) = decoder₂ · diag(nrm₂)** for any two conventions whose per-channel factors are
+non-zero, everything else equal (options incl. maxRE, gains, mute). -/
 theorem design_norm_invariant (o : Opts) (G : Mat ℝ L P) (Y : Mat ℝ C P) (nN3D nrm₁ nrm₂ : Vector ℝ C)
     (ord : Vector Nat C) (coef : Nat → ℝ) (gains : Vector ℝ C) (og : ℝ) (mute : Bool)
-    (hN : ∀ c : Fin C, nN3D[c.1] ≠ 0) (h₁ : ∀ c : Fin C, nrm₁[c.1] ≠ 0) (h₂ : ∀ c : Fin C, nrm₂[c.1] ≠ 0)
+    (hnd : NonDegenerate o G Y nN3D nrm₁ ord coef) (h₂ : ∀ c : Fin C, nrm₂[c.1] ≠ 0)
     (l : Fin L) (c : Fin C) :
     (design o G Y nN3D nrm₁ ord coef gains og mute).at l c * nrm₁[c.1]
       = (design o G Y nN3D nrm₂ ord coef gains og mute).at l c * nrm₂[c.1] := by
-  unfold design
-  rw [designW_at, designW_at, meanPow_norm_free G Y nN3D nrm₁ nrm₂ _ hN h₁ h₂]
+  have hN := hnd.hn3d
+  have h₁ := hnd.hnrm
+  rw [design_eq, design_eq, designW_at, designW_at, meanPow_norm_free G Y nN3D nrm₁ nrm₂ _ hN h₁ h₂]
   have e : ∀ (b : Vector ℝ C) (w : Option (Vector ℝ C)), b[c.1] ≠ 0 →
       d1 G Y nN3D b w l c * b[c.1] = d0 G Y l c * sc G Y * nN3D[c.1] * wOf w c := by
     intro b w hb
     unfold d1
     field_simp
-  set W := (if o.maxRE = true then some (maxREWeights coef ord o.maxREScale L) else none) with hW
+  set W := wOpt (L := L) o coef ord with hW
   have e₁ := e nrm₁ W (h₁ c)
   have e₂ := e nrm₂ W (h₂ c)
   split
@@ -64,12 +80,12 @@ a sound field with N3D coefficients `x` reads `x c · nrm c / nN3D c` in the pac
 loudspeaker signal `Σ_c decoder[l,c] · (that)` is the same for both conventions. -/
 theorem design_same_signals (o : Opts) (G : Mat ℝ L P) (Y : Mat ℝ C P) (nN3D nrm₁ nrm₂ : Vector ℝ C)
     (ord : Vector Nat C) (coef : Nat → ℝ) (gains : Vector ℝ C) (og : ℝ) (mute : Bool)
-    (hN : ∀ c : Fin C, nN3D[c.1] ≠ 0) (h₁ : ∀ c : Fin C, nrm₁[c.1] ≠ 0) (h₂ : ∀ c : Fin C, nrm₂[c.1] ≠ 0)
+    (hnd : NonDegenerate o G Y nN3D nrm₁ ord coef) (h₂ : ∀ c : Fin C, nrm₂[c.1] ≠ 0)
     (x : Fin C → ℝ) (l : Fin L) :
     ∑ c, (design o G Y nN3D nrm₁ ord coef gains og mute).at l c * (x c * nrm₁[c.1] / nN3D[c.1])
       = ∑ c, (design o G Y nN3D nrm₂ ord coef gains og mute).at l c * (x c * nrm₂[c.1] / nN3D[c.1]) := by
   refine Finset.sum_congr rfl fun c _ => ?_
-  have h := design_norm_invariant o G Y nN3D nrm₁ nrm₂ ord coef gains og mute hN h₁ h₂ l c
+  have h := design_norm_invariant o G Y nN3D nrm₁ nrm₂ ord coef gains og mute hnd h₂ l c
   calc _ = ((design o G Y nN3D nrm₁ ord coef gains og mute).at l c * nrm₁[c.1]) * (x c / nN3D[c.1]) := by ring
     _ = ((design o G Y nN3D nrm₂ ord coef gains og mute).at l c * nrm₂[c.1]) * (x c / nN3D[c.1]) := by rw [h]
     _ = _ := by ring
@@ -80,20 +96,23 @@ theorem design_same_signals (o : Opts) (G : Mat ℝ L P) (Y : Mat ℝ C P) (nN3D
 def ones (C : Nat) : Vector ℝ C := Vector.replicate C 1
 
 /-- **Linear in the per-channel gains and the object gain**: the decoder is the unit-gain decoder with column
-`c` multiplied by `gains[c] · (0 if muted else object gain)`. No hypotheses. -/
+`c` multiplied by `gains[c] · (0 if muted else object gain)`.  (`_hnd`: no division by zero — not needed for the
+algebra over ℝ, where `x/0 = 0`, but without it the `Float` model is NaN on both sides.) -/
 theorem design_linear_in_gains (o : Opts) (G : Mat ℝ L P) (Y : Mat ℝ C P) (nN3D nrm : Vector ℝ C)
-    (ord : Vector Nat C) (coef : Nat → ℝ) (gains : Vector ℝ C) (og : ℝ) (mute : Bool) (l : Fin L) (c : Fin C) :
+    (ord : Vector Nat C) (coef : Nat → ℝ) (gains : Vector ℝ C) (og : ℝ) (mute : Bool)
+    (_hnd : NonDegenerate o G Y nN3D nrm ord coef) (l : Fin L) (c : Fin C) :
     (design o G Y nN3D nrm ord coef gains og mute).at l c
       = (design o G Y nN3D nrm ord coef (ones C) 1 false).at l c * (gains[c.1] * (if mute then 0 else og)) := by
-  unfold design
-  rw [designW_at, designW_at]
+  rw [design_eq, design_eq, designW_at, designW_at]
   simp [ones]
 
-/-- **mute ⇒ 0** -/
+/-- **mute ⇒ 0** wherever the computation divides by zero nowhere (`_hnd`; there the unit-gain decoder is a real
+number on `Float` too, so `· 0.0 = 0.0`; in the degenerate cases the real code returns `NaN · 0.0 = NaN`). -/
 theorem design_mute_zero (o : Opts) (G : Mat ℝ L P) (Y : Mat ℝ C P) (nN3D nrm : Vector ℝ C)
-    (ord : Vector Nat C) (coef : Nat → ℝ) (gains : Vector ℝ C) (og : ℝ) (l : Fin L) (c : Fin C) :
+    (ord : Vector Nat C) (coef : Nat → ℝ) (gains : Vector ℝ C) (og : ℝ)
+    (hnd : NonDegenerate o G Y nN3D nrm ord coef) (l : Fin L) (c : Fin C) :
     (design o G Y nN3D nrm ord coef gains og true).at l c = 0 := by
-  rw [design_linear_in_gains]
+  rw [design_linear_in_gains o G Y nN3D nrm ord coef gains og true hnd]
   simp
 
 /-! ### Mean power -/
@@ -103,27 +122,23 @@ waves from the `P` t-design directions encoded in the pack's convention — the 
 noncomputable def meanPower (D : Mat ℝ L C) (Y : Mat ℝ C P) (nN3D nrm : Vector ℝ C) : ℝ :=
   (∑ p : Fin P, ∑ l : Fin L, (∑ c : Fin C, D.at l c * (nrm[c.1] / nN3D[c.1] * Y.at c p)) ^ 2) / (P : ℝ)
 
-/-- Unit mean power whenever the option `norm_mean_power` is on (any maxRE setting): if the un-normalised decoder
-(`norm_mean_power` off, everything else equal) has non-zero mean power, the decoder for unit gains has mean
-power exactly 1. -/
+/-- Unit mean power **over the code's `P` sample directions** whenever the option `norm_mean_power` is on (any
+maxRE setting) and no denominator is zero: the decoder for unit gains has mean power exactly 1. -/
 theorem design_unit_mean_power_nmp (o : Opts) (ho : o.normMeanPower = true) (G : Mat ℝ L P) (Y : Mat ℝ C P)
     (nN3D nrm : Vector ℝ C) (ord : Vector Nat C) (coef : Nat → ℝ)
-    (hden : meanPower (design { o with normMeanPower := false } G Y nN3D nrm ord coef (ones C) 1 false) Y nN3D nrm ≠ 0) :
+    (hnd : NonDegenerate o G Y nN3D nrm ord coef) :
     meanPower (design o G Y nN3D nrm ord coef (ones C) 1 false) Y nN3D nrm = 1 := by
-  obtain ⟨nmp, mx, scl⟩ := o
-  simp only at ho
-  subst ho
-  unfold meanPower design at *
-  simp only [designW_at, ones, Vector.getElem_replicate, if_true, Bool.false_eq_true, if_false, mul_one] at *
-  set w := (if mx = true then some (maxREWeights coef ord scl L) else none) with hw
+  have hden := hnd.meanPow ho
+  unfold meanPower
+  rw [design_eq]
+  set w := wOpt (L := L) o coef ord with hw
+  simp only [designW_at, ho, ones, Vector.getElem_replicate, if_true, Bool.false_eq_true, if_false, mul_one]
   have hmp : meanPow G Y nN3D nrm w = (∑ p : Fin P, ∑ l : Fin L,
       (∑ c : Fin C, d1 G Y nN3D nrm w l c * (nrm[c.1] / nN3D[c.1] * Y.at c p)) ^ 2) / (P : ℝ) := by
     unfold meanPow dk
     simp only [pow_two]
-  rw [← hmp] at hden
   have hpos : 0 < meanPow G Y nN3D nrm w := lt_of_le_of_ne (meanPow_nonneg _ _ _ _ _) (Ne.symm hden)
   have hs : Real.sqrt (meanPow G Y nN3D nrm w) ^ 2 = meanPow G Y nN3D nrm w := Real.sq_sqrt hpos.le
-  have hs0 : Real.sqrt (meanPow G Y nN3D nrm w) ≠ 0 := (Real.sqrt_pos.mpr hpos).ne'
   have inner : ∀ (p : Fin P) (l : Fin L),
       (∑ c : Fin C, d1 G Y nN3D nrm w l c / Real.sqrt (meanPow G Y nN3D nrm w) * (nrm[c.1] / nN3D[c.1] * Y.at c p)) ^ 2
         = (∑ c : Fin C, d1 G Y nN3D nrm w l c * (nrm[c.1] / nN3D[c.1] * Y.at c p)) ^ 2 / meanPow G Y nN3D nrm w := by
@@ -138,14 +153,13 @@ theorem design_unit_mean_power_nmp (o : Opts) (ho : o.normMeanPower = true) (G :
   exact div_self hden
 
 /-- **Unit mean power with default options** (`{}` = `HOADecoderDesign`'s defaults: mean-power normalisation on,
-maxRE off): the mean over the `P` t-design directions of the summed squared loudspeaker signals for unit
-plane waves encoded in the pack's convention is exactly 1, provided the un-normalised decoder's mean power —
-the denominator the code divides by — is not zero. -/
+maxRE off): the mean **over the code's `P` sample directions** (the t-design points — a quadrature of the sphere,
+not the sphere itself) of the summed squared loudspeaker signals for unit plane waves encoded in the pack's convention
+is exactly 1, provided no denominator of the computation is zero. -/
 theorem design_unit_mean_power (G : Mat ℝ L P) (Y : Mat ℝ C P) (nN3D nrm : Vector ℝ C) (ord : Vector Nat C)
-    (coef : Nat → ℝ)
-    (hden : meanPower (design { normMeanPower := false } G Y nN3D nrm ord coef (ones C) 1 false) Y nN3D nrm ≠ 0) :
+    (coef : Nat → ℝ) (hnd : NonDegenerate {} G Y nN3D nrm ord coef) :
     meanPower (design {} G Y nN3D nrm ord coef (ones C) 1 false) Y nN3D nrm = 1 :=
-  design_unit_mean_power_nmp {} rfl G Y nN3D nrm ord coef hden
+  design_unit_mean_power_nmp {} rfl G Y nN3D nrm ord coef hnd
 
 /-! ### LFE outputs (core Lean, any scalar type) -/
 
@@ -169,6 +183,62 @@ theorem no_lfe_feed {α : Type} (zero : α) : ∀ (lfe : List Bool) (rows out : 
     cases j with
     | zero => simp at hj
     | succ j => simpa using no_lfe_feed zero t rows o' ho' j (by simpa using hj)
+
+/-- **LFE outputs of the rendered signal are exactly zero, for every input** (`renderFrame` = one sample frame
+through `HOARenderer.render` / `FixedMatrix.process`): whatever the decoder rows and whatever the input samples `x`
+(any scalar type: also `Float` inputs that are NaN or infinite), every output channel flagged LFE carries the `0.0`
+the output block was initialised with. -/
+theorem render_lfe_zero {α : Type} [Scalar α] : ∀ (lfe : List Bool) (rows : List (Vector α C)) (x : Vector α C)
+    (out : List α), renderFrame lfe rows x = some out →
+    ∀ j : Nat, lfe[j]? = some true → out[j]? = some (Scalar.ofNat 0)
+  | [], [], x, out, h, j, hj => by simp at hj
+  | [], _ :: _, x, out, h, j, hj => by simp at hj
+  | true :: t, rows, x, out, h, j, hj => by
+    simp only [renderFrame, Option.map_eq_some_iff] at h
+    obtain ⟨o', ho', rfl⟩ := h
+    cases j with
+    | zero => simp
+    | succ j => simpa using render_lfe_zero t rows x o' ho' j (by simpa using hj)
+  | false :: t, [], x, out, h, j, hj => by simp [renderFrame] at h
+  | false :: t, r :: rows, x, out, h, j, hj => by
+    simp only [renderFrame, Option.map_eq_some_iff] at h
+    obtain ⟨o', ho', rfl⟩ := h
+    cases j with
+    | zero => simp at hj
+    | succ j => simpa using render_lfe_zero t rows x o' ho' j (by simpa using hj)
+
+/-- **no LFE feed, composed**: the renderer output for the decoder `design` returns — any options, any pack, any gains,
+any input frame — is `0` on every LFE channel; the non-LFE channels carry `Σ_c decoder[i,c]·x[c]` (`renderFrame`'s
+definition), i.e. the rendered frame is the routed gain matrix of `no_lfe_feed` applied to the input. -/
+theorem design_render_lfe_zero (o : Opts) (G : Mat ℝ L P) (Y : Mat ℝ C P) (nN3D nrm : Vector ℝ C)
+    (ord : Vector Nat C) (coef : Nat → ℝ) (gains : Vector ℝ C) (og : ℝ) (mute : Bool) (lfe : List Bool)
+    (x : Vector ℝ C) (out : List ℝ)
+    (h : renderFrame lfe (design o G Y nN3D nrm ord coef gains og mute).toList x = some out) (j : Nat)
+    (hj : lfe[j]? = some true) : out[j]? = some 0 := by
+  have := render_lfe_zero lfe _ x out h j hj
+  simpa using this
+
+/-- `renderFrame` is `route` followed by the matrix–vector product: output `j` is `0 + Σ_c routed[j][c]·x[c]` on the
+non-LFE channels and the untouched `0` on the LFE ones; it succeeds exactly when `route` does. -/
+theorem renderFrame_eq_route (lfe : List Bool) (rows : List (Vector ℝ C)) (x : Vector ℝ C) :
+    renderFrame lfe rows x = (route (0 : ℝ) lfe rows).map (·.map fun r => ∑ c : Fin C, r[c.1] * x[c.1]) := by
+  induction lfe generalizing rows with
+  | nil => cases rows <;> simp [renderFrame, route]
+  | cons b t ih =>
+    cases b with
+    | true =>
+      simp only [renderFrame, route, ih, Option.map_map]
+      congr 1
+      funext o
+      simp
+    | false =>
+      cases rows with
+      | nil => simp [renderFrame, route]
+      | cons r rows =>
+        simp only [renderFrame, route, ih, Option.map_map]
+        congr 1
+        funext o
+        simp
 
 /-- the entries of `xs` at the positions not flagged in `mask`, in order -/
 def unmasked {β : Type} : List Bool → List β → List β
@@ -251,11 +321,19 @@ theorem norms_sq (n m : Nat) :
     · exact key 9 5 rfl (by simp only [scalar_sqrt, scalar_ofNat, Nat.cast_ofNat, div_pow, s5]; norm_num)
     · exact key 8 5 rfl (by simp only [scalar_sqrt, scalar_ofNat, Nat.cast_ofNat, s85])
 
-/-- **All norm factors are positive** (so the non-zero hypotheses of `design_norm_invariant` hold for N3D, SN3D
-and, where defined, FuMa). -/
-theorem norms_pos (n m : Nat) :
+theorem factSub_of_le {n m : Nat} (h : m ≤ n) : factSub n m = fact (n - m) := by
+  unfold factSub
+  rw [if_neg (by omega)]
+
+theorem factSub_of_gt {n m : Nat} (h : n < m) : factSub n m = 0 := by
+  unfold factSub
+  rw [if_pos h]
+
+/-- **All norm factors are positive for `|m| ≤ n`** (so the non-zero hypotheses of `design_norm_invariant` hold for
+N3D, SN3D and, where defined, FuMa). -/
+theorem norms_pos (n m : Nat) (h : m ≤ n) :
     (0 : ℝ) < normN3D n m ∧ (0 : ℝ) < normSN3D n m ∧ ∀ x : ℝ, normFuMa n m = some x → 0 < x := by
-  have h1 : (0 : ℝ) < (fact (n - m) : ℝ) := by exact_mod_cast fact_pos _
+  have h1 : (0 : ℝ) < (factSub n m : ℝ) := by rw [factSub_of_le h]; exact_mod_cast fact_pos _
   have h2 : (0 : ℝ) < (fact (n + m) : ℝ) := by exact_mod_cast fact_pos _
   have hS : (0 : ℝ) < normSN3D n m := by
     simp only [normSN3D, scalar_sqrt, scalar_ofNat]
@@ -270,6 +348,197 @@ theorem norms_pos (n m : Nat) :
     unfold fumaFactor at hf
     split at hf <;> simp only [Option.some.injEq, reduceCtorEq] at hf <;> subst hf <;>
       simp only [scalar_sqrt, scalar_ofNat] <;> positivity
+
+/-- **`|degree| > order`: what the code computes** (`scipy.special.factorial` of a negative number is `0`):
+`norm_N3D = norm_SN3D = 0` and `norm_FuMa` raises `KeyError`.  Nothing in the real code rejects such a channel
+(no validator compares `degree` with `order`); `allrad_design` then evaluates `norm_N3D/norm = 0/0` and the whole
+decoder is NaN (the Frobenius norm is taken over all channels).  Such a pack violates `NonDegenerate.hn3d`, so none
+of the `design_*` theorems speaks about it. -/
+theorem norms_zero_of_gt (n m : Nat) (h : n < m) :
+    (normN3D n m : ℝ) = 0 ∧ (normSN3D n m : ℝ) = 0 ∧ (normFuMa n m : Option ℝ) = none ∧
+    n3dSq n m = (0, fact (n + m)) ∧ sn3dSq n m = (0, fact (n + m)) ∧ fumaSq n m = none := by
+  have hf : fumaFactorSq n m = none := by
+    unfold fumaFactorSq
+    split <;> first | rfl | omega
+  have hf' : (fumaFactor n m : Option ℝ) = none := by
+    unfold fumaFactor
+    split <;> first | rfl | omega
+  refine ⟨?_, ?_, ?_, ?_, ?_, ?_⟩
+  · simp [normN3D, factSub_of_gt h]
+  · simp [normSN3D, factSub_of_gt h]
+  · simp [normFuMa, hf']
+  · simp [n3dSq, factSub_of_gt h]
+  · simp [sn3dSq, factSub_of_gt h]
+  · simp [fumaSq, hf]
+
+/-! ### The concrete conventions and `sph_harm` inside the theorems (`designPack`) -/
+
+theorem fumaFactor_isSome (n m : Nat) : (fumaFactor n m : Option ℝ).isSome = (fumaFactorSq n m).isSome := by
+  unfold fumaFactor fumaFactorSq
+  split <;> simp
+
+/-- **`sph_harm` is linear in its `norm` argument**: `K_v = sph_harm(…, norm=norm)` is `diag(norm/norm_N3D)·Y_virt`
+(what `designW` uses for `K_v`), whenever the N3D factor is non-zero. -/
+theorem sphHarm_rescale (nf nN : ℝ) (hN : nN ≠ 0) (n : Nat) (m : Int) (az el : ℝ) :
+    sphHarm nf n m az el = nf / nN * sphHarm nN n m az el := by
+  unfold sphHarm
+  field_simp
+
+/-- the FuMa harmonics are the SN3D harmonics times the conversion factor of the `convert` table -/
+theorem sphHarm_fuma (n mm : Nat) (f x : ℝ) (hf : fumaFactor n mm = some f) (hx : normFuMa n mm = some x) (m : Int)
+    (az el : ℝ) : sphHarm x n m az el = f * sphHarm (normSN3D n mm) n m az el := by
+  simp only [normFuMa, hf, Option.map_some, Option.some.injEq] at hx
+  subst hx
+  unfold sphHarm
+  ring
+
+/-- `normDefined` says exactly when the model's `normBy` (= the code's `norm(n, |m|)`) returns a value. -/
+theorem normDefined_iff (conv n m : Nat) :
+    normDefined conv n m = true ↔ ∃ x : ℝ, normBy conv n m = some x := by
+  unfold normDefined normBy
+  split
+  · simp
+  · simp
+  · rw [← fumaFactor_isSome, Option.isSome_iff_exists]
+    simp [normFuMa]
+  · simp
+
+/-- every factor the three conventions return for a channel with `|m| ≤ n` is positive -/
+theorem normBy_pos (conv n m : Nat) (h : m ≤ n) (x : ℝ) (hx : normBy conv n m = some x) : 0 < x := by
+  obtain ⟨h0, h1, h2⟩ := norms_pos n m h
+  unfold normBy at hx
+  split at hx
+  · simp only [Option.some.injEq] at hx; subst hx; exact h0
+  · simp only [Option.some.injEq] at hx; subst hx; exact h1
+  · exact h2 x hx
+  · simp at hx
+
+/-- `normVec` returns the element-wise `normBy` values -/
+theorem normVec_spec (conv : Nat) (ord : Vector Nat C) (deg : Vector Int C) (v : Vector ℝ C)
+    (h : normVec conv ord deg = some v) (c : Fin C) : normBy conv ord[c.1] deg[c.1].natAbs = some v[c.1] := by
+  unfold normVec at h
+  split at h
+  · rename_i hall
+    simp only [Option.some.injEq] at h
+    subst h
+    rw [List.all_eq_true] at hall
+    obtain ⟨x, hx⟩ := (normDefined_iff _ _ _).mp (hall c (List.mem_finRange c))
+    simp [hx]
+  · simp at h
+
+theorem normVec_pos (conv : Nat) (ord : Vector Nat C) (deg : Vector Int C) (v : Vector ℝ C)
+    (h : normVec conv ord deg = some v) (hdeg : ∀ c : Fin C, deg[c.1].natAbs ≤ ord[c.1]) (c : Fin C) :
+    0 < v[c.1] :=
+  normBy_pos conv _ _ (hdeg c) _ (normVec_spec conv ord deg v h c)
+
+theorem n3dVec_pos (ord : Vector Nat C) (deg : Vector Int C) (hdeg : ∀ c : Fin C, deg[c.1].natAbs ≤ ord[c.1])
+    (c : Fin C) : (0 : ℝ) < (n3dVec ord deg)[c.1] := by
+  simp only [n3dVec, Vector.getElem_ofFn]
+  exact (norms_pos _ _ (hdeg c)).1
+
+/-- **a channel with `|degree| > order` makes `NonDegenerate` fail** (its N3D factor is `0`): such packs are outside
+every `design_*` theorem; the real code returns NaN for them (see `norms_zero_of_gt`). -/
+theorem degree_gt_order_degenerate (o : Opts) (G : Mat ℝ L P) (az el : Vector ℝ P) (nrm : Vector ℝ C)
+    (ord : Vector Nat C) (deg : Vector Int C) (coef : Nat → ℝ) (c : Fin C) (h : ord[c.1] < deg[c.1].natAbs) :
+    ¬ NonDegenerate o G (yVirt ord deg az el) (n3dVec ord deg) nrm ord coef := by
+  intro hnd
+  apply hnd.hn3d c
+  simp only [n3dVec, Vector.getElem_ofFn]
+  exact (norms_zero_of_gt _ _ h).1
+
+theorem finRange_all_perm (σ : Equiv.Perm (Fin C)) (f : Fin C → Bool) :
+    (List.finRange C).all (fun c => f (σ c)) = (List.finRange C).all f := by
+  rw [Bool.eq_iff_iff, List.all_eq_true, List.all_eq_true]
+  constructor
+  · intro h c _
+    have := h (σ.symm c) (List.mem_finRange _)
+    simpa using this
+  · intro h c _
+    exact h (σ c) (List.mem_finRange _)
+
+theorem normVec_perm (σ : Equiv.Perm (Fin C)) (conv : Nat) (ord : Vector Nat C) (deg : Vector Int C) :
+    (normVec conv (permV σ ord) (permV σ deg) : Option (Vector ℝ C)) = (normVec conv ord deg).map (permV σ) := by
+  unfold normVec
+  simp only [permV_get]
+  rw [finRange_all_perm σ (fun c => normDefined conv ord[c.1] deg[c.1].natAbs)]
+  split
+  · simp only [Option.map_some, Option.some.injEq]
+    apply Vector.ext
+    intro i hi
+    simp [permV]
+  · rfl
+
+theorem n3dVec_perm (σ : Equiv.Perm (Fin C)) (ord : Vector Nat C) (deg : Vector Int C) :
+    (n3dVec (permV σ ord) (permV σ deg) : Vector ℝ C) = permV σ (n3dVec ord deg) := by
+  apply Vector.ext
+  intro i hi
+  simp [n3dVec, permV]
+
+theorem yVirt_perm (σ : Equiv.Perm (Fin C)) (ord : Vector Nat C) (deg : Vector Int C) (az el : Vector ℝ P) :
+    yVirt (permV σ ord) (permV σ deg) az el = permV σ (yVirt ord deg az el) := by
+  apply Vector.ext
+  intro i hi
+  simp [yVirt, Mat.ofFn, permV]
+
+/-- **Channel order, concrete**: `designPack` computes everything between the pack's `(orders, degrees,
+normalisation)` and the decoder — `norm_*`, `sph_harm` (→ `Y_virt`, `K_v`), `allrad_design`, maxRE, mean power, gains.
+Listing the pack's channels in another order (orders, degrees and gains move together) permutes the decoder's columns
+and changes nothing else; the element-wise evaluation of `norm_*` / `sph_harm` on the reordered arrays is part of the
+statement, not a parameter. -/
+theorem designPack_perm (σ : Equiv.Perm (Fin C)) (o : Opts) (G : Mat ℝ L P) (az el : Vector ℝ P) (conv : Nat)
+    (ord : Vector Nat C) (deg : Vector Int C) (coef : Nat → ℝ) (gains : Vector ℝ C) (og : ℝ) (mute : Bool)
+    (D : Mat ℝ L C) (hD : designPack o G az el conv ord deg coef gains og mute = some D)
+    (hnd : ∀ nrm, normVec conv ord deg = some nrm →
+      NonDegenerate o G (yVirt ord deg az el) (n3dVec ord deg) nrm ord coef) :
+    ∃ D', designPack o G az el conv (permV σ ord) (permV σ deg) coef (permV σ gains) og mute = some D' ∧
+      ∀ (l : Fin L) (c : Fin C), D'.at l c = D.at l (σ c) := by
+  unfold designPack at hD ⊢
+  rw [Option.map_eq_some_iff] at hD
+  obtain ⟨nrm, hn, rfl⟩ := hD
+  rw [normVec_perm, hn, yVirt_perm, n3dVec_perm]
+  exact ⟨_, rfl, (design_perm σ o G _ _ nrm ord coef gains og mute (hnd nrm hn)).2⟩
+
+/-- a sound field with N3D coefficients `x`, written in the pack's convention `conv` (`0` N3D, `1` SN3D, `2` FuMa):
+coefficient `c` is `x c · norm_conv(n_c, |m_c|) / norm_N3D(n_c, |m_c|)` -/
+noncomputable def encode (conv : Nat) (ord : Vector Nat C) (deg : Vector Int C) (x : Fin C → ℝ) (c : Fin C) : ℝ :=
+  x c * ((normBy conv ord[c.1] deg[c.1].natAbs : Option ℝ).getD 0) / normN3D ord[c.1] deg[c.1].natAbs
+
+/-- **Normalisation convention, concrete**: for a pack whose channels satisfy `|degree| ≤ order`, the decoders
+`designPack` designs for any two conventions for which the code's `norm` returns (N3D, SN3D; FuMa up to order 3)
+give identical loudspeaker signals for the same sound field — with the model's own `norm_N3D`, `norm_SN3D`,
+`norm_FuMa` (tied to the code's values by `tables_match_model` / `tables_normBy_sq`) and `sph_harm` inside. -/
+theorem designPack_same_signals (o : Opts) (G : Mat ℝ L P) (az el : Vector ℝ P) (conv₁ conv₂ : Nat)
+    (ord : Vector Nat C) (deg : Vector Int C) (coef : Nat → ℝ) (gains : Vector ℝ C) (og : ℝ) (mute : Bool)
+    (hdeg : ∀ c : Fin C, deg[c.1].natAbs ≤ ord[c.1])
+    (D₁ D₂ : Mat ℝ L C) (h₁ : designPack o G az el conv₁ ord deg coef gains og mute = some D₁)
+    (h₂ : designPack o G az el conv₂ ord deg coef gains og mute = some D₂)
+    (hnd : ∀ nrm, normVec conv₁ ord deg = some nrm →
+      NonDegenerate o G (yVirt ord deg az el) (n3dVec ord deg) nrm ord coef)
+    (x : Fin C → ℝ) (l : Fin L) :
+    ∑ c, D₁.at l c * encode conv₁ ord deg x c = ∑ c, D₂.at l c * encode conv₂ ord deg x c := by
+  unfold designPack at h₁ h₂
+  rw [Option.map_eq_some_iff] at h₁ h₂
+  obtain ⟨n₁, hn₁, rfl⟩ := h₁
+  obtain ⟨n₂, hn₂, rfl⟩ := h₂
+  have key := design_same_signals o G (yVirt ord deg az el) (n3dVec ord deg) n₁ n₂ ord coef gains og mute
+    (hnd n₁ hn₁) (fun c => (normVec_pos conv₂ ord deg n₂ hn₂ hdeg c).ne') x l
+  have e : ∀ (conv : Nat) (n : Vector ℝ C), normVec conv ord deg = some n → ∀ c : Fin C,
+      encode conv ord deg x c = x c * n[c.1] / (n3dVec ord deg)[c.1] := by
+    intro conv n hn c
+    simp [encode, normVec_spec conv ord deg n hn c, n3dVec]
+  simp only [e conv₁ n₁ hn₁, e conv₂ n₂ hn₂]
+  exact key
+
+/-- `NonDegenerate` for a concrete pack from conditions on `G` and the sampled harmonics only: `|degree| ≤ order`
+takes care of the norm factors. -/
+theorem nonDegenerate_pack (o : Opts) (G : Mat ℝ L P) (az el : Vector ℝ P) (conv : Nat) (ord : Vector Nat C)
+    (deg : Vector Int C) (coef : Nat → ℝ) (nrm : Vector ℝ C) (hn : normVec conv ord deg = some nrm)
+    (hdeg : ∀ c : Fin C, deg[c.1].natAbs ≤ ord[c.1]) (hP : P ≠ 0) (hY : RowsIndependent (yVirt ord deg az el))
+    (hD : ∃ l c, d0 G (yVirt ord deg az el) l c ≠ 0 ∧ wOf (wOpt (L := L) o coef ord) c ≠ 0)
+    (hs : o.maxRE = true → o.maxREScale ≠ .none → (∑ c : Fin C, coef ord[c.1] * coef ord[c.1]) ≠ 0) :
+    NonDegenerate o G (yVirt ord deg az el) (n3dVec ord deg) nrm ord coef :=
+  nonDegenerate_of_indep o G _ _ nrm ord coef hP hY (fun c => (n3dVec_pos ord deg hdeg c).ne')
+    (fun c => (normVec_pos conv ord deg nrm hn hdeg c).ne') hD hs
 
 /-! ### Regenerated tables (re-checked against what `ear.core.hoa` returns now) -/
 
@@ -321,6 +590,79 @@ theorem table_acn_inverse :
     ∧ Gen.toAcnTable.length = 36 := by
   decide +kernel
 
+theorem mem_keys {N n m : Nat} (h : (n, m) ∈ keys N) : m ≤ n ∧ n ≤ N := by
+  simp only [keys, List.mem_flatMap, List.mem_map, List.mem_range, Prod.mk.injEq] at h
+  obtain ⟨a, ha, b, hb, rfl, rfl⟩ := h
+  omega
+
+theorem cross_div {a b c d : Nat} (hb : 0 < b) (hd : 0 < d) (h : a * d = b * c) : (c : ℝ) / d = (a : ℝ) / b := by
+  have hb' : (b : ℝ) ≠ 0 := by exact_mod_cast hb.ne'
+  have hd' : (d : ℝ) ≠ 0 := by exact_mod_cast hd.ne'
+  rw [div_eq_div_iff hd' hb']
+  have : ((a * d : Nat) : ℝ) = ((b * c : Nat) : ℝ) := by rw [h]
+  push_cast at this
+  linarith
+
+/-- **The regenerated tables are the squares of the model's `normBy`**: for every `(n, |m|)` with `n ≤ 5` (FuMa
+`n ≤ 3`) the value the code's `norm_N3D` / `norm_SN3D` / `norm_FuMa` returned at extraction time, squared, is exactly
+the square of what `normBy` (the function inside `designPack` and run by the driver) returns over ℝ, and it is positive —
+the concrete conventions of the theorems are the code's. -/
+theorem tables_normBy_sq :
+    (∀ e ∈ Gen.n3dTable, ∃ x : ℝ, normBy 0 e.1 e.2.1 = some x ∧ 0 < x ∧ x ^ 2 = (e.2.2.1 : ℝ) / (e.2.2.2 : ℝ)) ∧
+    (∀ e ∈ Gen.sn3dTable, ∃ x : ℝ, normBy 1 e.1 e.2.1 = some x ∧ 0 < x ∧ x ^ 2 = (e.2.2.1 : ℝ) / (e.2.2.2 : ℝ)) ∧
+    (∀ e ∈ Gen.fumaTable, ∃ x : ℝ, normBy 2 e.1 e.2.1 = some x ∧ 0 < x ∧ x ^ 2 = (e.2.2.1 : ℝ) / (e.2.2.2 : ℝ)) := by
+  obtain ⟨⟨k1, a1⟩, ⟨k2, a2⟩, ⟨k3, a3⟩⟩ := tables_match_model
+  have pos := tables_norms_positive
+  rw [List.all_eq_true] at pos a1 a2 a3
+  have hpos : ∀ e, e ∈ Gen.n3dTable ∨ e ∈ Gen.sn3dTable ∨ e ∈ Gen.fumaTable → 0 < e.2.2.2 := by
+    intro e he
+    have := pos e (by simp only [List.mem_append]; tauto)
+    simp only [Bool.and_eq_true, decide_eq_true_eq] at this
+    exact this.2
+  have hkey : ∀ (t : List (Nat × Nat × Nat × Nat)) (N : Nat), t.map (fun e => (e.1, e.2.1)) = keys N →
+      ∀ e ∈ t, e.2.1 ≤ e.1 := by
+    intro t N hk e he
+    have : (e.1, e.2.1) ∈ keys N := by rw [← hk]; exact List.mem_map.mpr ⟨e, he, rfl⟩
+    exact (mem_keys this).1
+  refine ⟨fun e he => ?_, fun e he => ?_, fun e he => ?_⟩
+  · have hm := hkey _ _ k1 e he
+    have h := a1 e he
+    simp only [beq_iff_eq] at h
+    refine ⟨normN3D e.1 e.2.1, rfl, (norms_pos _ _ hm).1, ?_⟩
+    rw [(norms_sq e.1 e.2.1).1]
+    exact cross_div (hpos e (Or.inl he)) (by simp [n3dSq, fact_pos]) h
+  · have hm := hkey _ _ k2 e he
+    have h := a2 e he
+    simp only [beq_iff_eq] at h
+    refine ⟨normSN3D e.1 e.2.1, rfl, (norms_pos _ _ hm).2.1, ?_⟩
+    rw [(norms_sq e.1 e.2.1).2.1]
+    exact cross_div (hpos e (Or.inr (Or.inl he))) (by simp [sn3dSq, fact_pos]) h
+  · have hm := hkey _ _ k3 e he
+    have h := a3 e he
+    cases hq : fumaSq e.1 e.2.1 with
+    | none => rw [hq] at h; simp at h
+    | some q =>
+      rw [hq] at h
+      simp only [beq_iff_eq] at h
+      have hd : (normDefined 2 e.1 e.2.1) = true := by
+        simp only [normDefined]
+        simp only [fumaSq, Option.map_eq_some_iff] at hq
+        obtain ⟨f, hf, _⟩ := hq
+        simp [hf]
+      obtain ⟨x, hx⟩ := (normDefined_iff 2 _ _).mp hd
+      obtain ⟨q', hq', hx2⟩ := (norms_sq e.1 e.2.1).2.2 x hx
+      rw [hq] at hq'
+      simp only [Option.some.injEq] at hq'
+      subst hq'
+      have hq2 : 0 < q.2 := by
+        simp only [fumaSq, Option.map_eq_some_iff] at hq
+        obtain ⟨f, hf, rfl⟩ := hq
+        have : 0 < f.2 := by
+          unfold fumaFactorSq at hf
+          split at hf <;> simp at hf <;> subst hf <;> simp
+        simp [sn3dSq, fact_pos, this]
+      exact ⟨x, hx, normBy_pos 2 _ _ hm x hx, by rw [hx2]; exact cross_div (hpos e (Or.inr (Or.inr he))) hq2 h⟩
+
 /-! ### Non-vacuity: small concrete inputs satisfying the hypotheses -/
 
 section examples
@@ -348,24 +690,109 @@ example : route (0 : Int) [false, true, false] [#v[1, 2], #v[3, 4]] = some [#v[1
 
 def exOne : Vector ℝ 2 := #v[1, 1]
 
-/-- the non-zero-denominator hypothesis of `design_unit_mean_power` holds for a concrete 2×2×2 design
-(`G = I`, `Y = [[1,1],[1,-1]]`, unit norm factors: the un-normalised decoder has mean power 1) -/
-example : meanPower (design { normMeanPower := false } exG exY exOne exOne #v[0, 1] (fun _ => 1) (ones 2) 1 false)
-    exY exOne exOne ≠ 0 := by
-  have hd0 : ∀ l c, d0 exG exY l c = exY.at c l / 2 := by
-    intro l c
-    fin_cases l <;> fin_cases c <;> simp [d0, Fin.sum_univ_two, Mat.at, exG, exY]
-  have hf : froSq exG exY = 2 := by
-    simp only [froSq, hd0, Fin.sum_univ_two]
-    simp [Mat.at, exY]
-    norm_num
-  have hsc : sc exG exY = 1 := by
-    rw [sc, hf]
-    exact div_self (by simp)
-  unfold meanPower design
-  simp only [designW_at, d1, hd0, hsc, wOf, Fin.sum_univ_two]
-  simp [Mat.at, exY, exOne, ones]
+/-- the rows `(1, 1)`, `(1, −1)` of `exY` are linearly independent -/
+theorem exY_indep : RowsIndependent exY := by
+  intro a h c
+  have h0 := h 0
+  have h1 := h 1
+  simp [Fin.sum_univ_two, Mat.at, exY] at h0 h1
+  fin_cases c
+  · show a 0 = 0; linarith
+  · show a 1 = 0; linarith
+
+/-- **Non-vacuity of `NonDegenerate`** (hypothesis of every `design_*` theorem): the concrete 2×2×2 design
+`G = I`, `Y = [[1,1],[1,-1]]`, unit norm factors, default options satisfies it — via `nonDegenerate_of_indep`
+(`G·Yᵀ/P` has the non-zero entry `1/2` at `(0,0)`). -/
+example : NonDegenerate {} exG exY exOne exOne #v[0, 1] (fun _ => 1) := by
+  refine nonDegenerate_of_indep {} exG exY exOne exOne _ _ (by norm_num) exY_indep ?_ ?_ ⟨0, 0, ?_, ?_⟩ ?_
+  · intro c; fin_cases c <;> simp [exOne]
+  · intro c; fin_cases c <;> simp [exOne]
+  · simp [d0, Fin.sum_univ_two, Mat.at, exG, exY]
+  · simp [wOpt, wOf]
+  · intro h; simp at h
+
+/-- … and with maxRE weights rescaled by `components` (the `sumsq` field is then a real condition) -/
+example : NonDegenerate { maxRE := true, maxREScale := .components } exG exY exOne exOne #v[0, 1] (fun _ => 1) := by
+  refine nonDegenerate_of_indep _ exG exY exOne exOne _ _ (by norm_num) exY_indep ?_ ?_ ⟨0, 0, ?_, ?_⟩ ?_
+  · intro c; fin_cases c <;> simp [exOne]
+  · intro c; fin_cases c <;> simp [exOne]
+  · simp [d0, Fin.sum_univ_two, Mat.at, exG, exY]
+  · simp [wOpt, wOf, maxREWeights]
+  · intro _ _; simp
+
+/-- the routing / rendering model on a 3-channel output with the middle channel LFE: one frame `(1, 1)` -/
+example : renderFrame [false, true, false] [(#v[1, 2] : Vector ℝ 2), #v[3, 4]] #v[1, 1] = some [3, 0, 7] := by
+  simp [renderFrame, Fin.sum_univ_two]
   norm_num
+
+noncomputable def pkAz : Vector ℝ 2 := #v[0, 0]
+noncomputable def pkEl : Vector ℝ 2 := #v[0, Real.pi / 2]
+def pkOrd : Vector Nat 2 := #v[0, 1]
+def pkDeg : Vector Int 2 := #v[0, 0]
+
+/-- the sampled harmonics of the pack `W, Z` (orders 0, 1; degrees 0, 0) at the horizon and at the zenith:
+`Y_virt = [[1, 1], [0, √3]]` — `sph_harm` evaluated inside the model -/
+theorem pkY : yVirt pkOrd pkDeg pkAz pkEl = #v[#v[1, 1], #v[0, Real.sqrt 3]] := by
+  apply Vector.ext
+  intro i hi
+  have : i = 0 ∨ i = 1 := by omega
+  rcases this with rfl | rfl
+  · apply Vector.ext
+    intro j hj
+    have : j = 0 ∨ j = 1 := by omega
+    rcases this with rfl | rfl <;>
+      simp [yVirt, Mat.ofFn, sphHarm, normN3D, alegendre, legUp, legDiag, azScale, factSub, fact, pkAz, pkEl, pkOrd, pkDeg]
+  · apply Vector.ext
+    intro j hj
+    have : j = 0 ∨ j = 1 := by omega
+    rcases this with rfl | rfl <;>
+      simp [yVirt, Mat.ofFn, sphHarm, normN3D, alegendre, legUp, legDiag, azScale, factSub, fact, pkAz, pkEl, pkOrd, pkDeg]
+    norm_num
+
+theorem pk_hyps (conv : Nat) (hc : conv = 0 ∨ conv = 1) :
+    (∃ D, designPack {} exG pkAz pkEl conv pkOrd pkDeg (fun _ => 1) (ones 2) 1 false = some D) ∧
+    (∀ c : Fin 2, pkDeg[c.1].natAbs ≤ pkOrd[c.1]) ∧
+    ∀ nrm, normVec conv pkOrd pkDeg = some nrm →
+      NonDegenerate {} exG (yVirt pkOrd pkDeg pkAz pkEl) (n3dVec pkOrd pkDeg) nrm pkOrd (fun _ => 1) := by
+  have hdeg : ∀ c : Fin 2, pkDeg[c.1].natAbs ≤ pkOrd[c.1] := by
+    intro c; fin_cases c <;> simp [pkDeg, pkOrd]
+  have hdef : (List.finRange 2).all (fun c => normDefined conv pkOrd[c.1] pkDeg[c.1].natAbs) = true := by
+    rcases hc with rfl | rfl <;> decide
+  refine ⟨?_, hdeg, fun nrm hn => ?_⟩
+  · unfold designPack normVec
+    rw [if_pos hdef]
+    exact ⟨_, rfl⟩
+  · refine nonDegenerate_pack {} exG pkAz pkEl conv pkOrd pkDeg _ nrm hn hdeg (by norm_num) ?_ ⟨0, 0, ?_, ?_⟩ ?_
+    · rw [pkY]
+      intro a h c
+      have h0 := h 0
+      have h1 := h 1
+      simp [Fin.sum_univ_two, Mat.at] at h0 h1
+      have h3 : (Real.sqrt 3 : ℝ) ≠ 0 := by positivity
+      have ha0 : a 0 = 0 := h0
+      have ha1 : a 1 = 0 := by
+        rw [ha0] at h1
+        simpa [h3] using h1
+      fin_cases c
+      · exact ha0
+      · exact ha1
+    · rw [pkY]; simp [d0, Fin.sum_univ_two, Mat.at, exG]
+    · simp [wOpt, wOf]
+    · intro h; simp at h
+
+/-- Non-vacuity of `designPack_same_signals` and `designPack_perm`: the pack `W, Z` sampled at the horizon and the
+zenith, `G = I`, in SN3D (`1`) and N3D (`0`). -/
+example (x : Fin 2 → ℝ) (l : Fin 2) : ∃ D₁ D₂ : Mat ℝ 2 2,
+    designPack {} exG pkAz pkEl 1 pkOrd pkDeg (fun _ => 1) (ones 2) 1 false = some D₁ ∧
+    designPack {} exG pkAz pkEl 0 pkOrd pkDeg (fun _ => 1) (ones 2) 1 false = some D₂ ∧
+    ∑ c, D₁.at l c * encode 1 pkOrd pkDeg x c = ∑ c, D₂.at l c * encode 0 pkOrd pkDeg x c := by
+  obtain ⟨⟨D₁, h₁⟩, hdeg, hnd⟩ := pk_hyps 1 (Or.inr rfl)
+  obtain ⟨⟨D₂, h₂⟩, -, -⟩ := pk_hyps 0 (Or.inl rfl)
+  exact ⟨D₁, D₂, h₁, h₂, designPack_same_signals {} exG pkAz pkEl 1 0 pkOrd pkDeg _ _ 1 false hdeg D₁ D₂ h₁ h₂ hnd x l⟩
+
+/-- `|degree| > order` (order 1, degree 2 — accepted by every validator of the real code): both factors are `0` -/
+example : (normN3D 1 2 : ℝ) = 0 ∧ (normSN3D 1 2 : ℝ) = 0 ∧ n3dSq 1 2 = (0, 6) :=
+  ⟨(norms_zero_of_gt 1 2 (by norm_num)).1, (norms_zero_of_gt 1 2 (by norm_num)).2.1, by decide⟩
 
 /-- norm factors of the first channels: N3D(1,1)² = 3/2, FuMa(0,0)² = 1/2 -/
 example : n3dSq 1 1 = (3, 2) ∧ fumaSq 0 0 = some (1, 2) ∧ fumaSq 4 0 = none := by decide
